@@ -20,6 +20,9 @@ for d in sorted(glob.glob(os.path.join(here, 'seeded', ID + '-*'))):
             sites.setdefault(cur, set()).add(fn[-1] if fn else '?')
 sitetxt = '; '.join('%s: %s' % (f, ', '.join(sorted(s))) for f, s in sorted(sites.items()))
 WT, SD = '/tmp/wt%s-%s' % (RND, ID), '/tmp/seed%s-%s' % (RND, ID)
+HINT5 = "Triggers that are especially welcome: three or more threads / processes / looms; something that only shows after many repetitions (a counter, a dynamic array or hash table growing, a wrap-around); the cooperation of two sites; rarely combined options (ovniemu -a -b -c -l -d, OVNI_TMPDIR, ovnisort -n, clock offset tables); state left behind by an earlier run or emulation; integer edges; the interplay of two event models; the less used tools."
+HINT6 = "Assume that anything which shows within a handful of events on two or three threads of one process, with default options, a healthy file system and small values, is already caught. Look elsewhere: histories of eight or more events in which an intermediate state matters (something is set up early and misused late); events of two or three different models interleaved in one thread or trace (task models together with MPI, marks, kernel context switches, flushes); what the environment may answer (short or interrupted reads and writes, EEXIST, ENOENT, directory order, a file that already exists or is a symbolic link, a full disk at one particular call); behaviour after the first error was reported (is the exit status still non-zero, are later streams still checked); finish and clean-up paths; the outputs other than thread.prv (cpu.prv, the .pcf and .row files, the breakdown traces); numeric edges (values of 2^31 and beyond, zero, negative, very long names and labels); many participants (dozens of threads, CPUs, looms, task types); and changes split over two sites of which each alone is harmless."
+HINT = HINT6 if int(RND) >= 6 else HINT5
 print(f"""You are helping to test how well a verification effort for the C project bsc-pm/ovni detects regressions. ovni is a tracing runtime (libovni, src/rt/ovni.c) that writes per-thread binary event streams, plus an emulator (ovniemu) and tools (ovnidump, ovnitop, ovnisort, ovnievents, ovniver; src/emu) that replay them into Paraver traces. Documentation is under doc/.
 
 You have your own scratch git worktree of the repository at {WT}. Work only there and under {SD} (create it). Never read or write /repo or /verif. There is no network.
@@ -36,7 +39,7 @@ Produce TWO independent changes (patch1, patch2) to the sources under src/ or in
  (a) compiling without new warnings with the recipe above,
  (b) leaving all 88 tests of the suite passing, and
  (c) looking like a realistic slip a developer could make (a refactoring that loses a case, an off-by-one, the wrong variable, a missing reset, two operations in the wrong order, a cached value that goes stale, a narrowed integer type, a condition that is right for the common configuration only) - not sabotage with magic constants.
-Each change must need something SPECIFIC to manifest - a particular interleaving, a crash or fault at a particular point, a multi-step sequence of operations, an unusual input or configuration, or two cooperating code sites that each look fine alone - and must NOT be exposed at once by ordinary use. Triggers that are especially welcome: three or more threads / processes / looms; something that only shows after many repetitions (a counter, a dynamic array or hash table growing, a wrap-around); the cooperation of two sites; rarely combined options (ovniemu -a -b -c -l -d, OVNI_TMPDIR, ovnisort -n, clock offset tables); state left behind by an earlier run or emulation; integer edges; the interplay of two event models; the less used tools.
+Each change must need something SPECIFIC to manifest - a particular interleaving, a crash or fault at a particular point, a multi-step sequence of operations, an unusual input or configuration, or two cooperating code sites that each look fine alone - and must NOT be exposed at once by ordinary use. {HINT}
 Earlier rounds already used changes in these places - choose different mechanisms and, where you can, different functions: {sitetxt}.
 The two patches must be independent of each other (each applies alone to the clean tree) and should use different mechanisms.
 
